@@ -11,7 +11,7 @@ def items():
 
 def run(tier='quick', seed=0, only=None):
     its = [i for i in items() if not only or only in i.cid]
-    return runner.run_property(PID, its, bounded=[] if only else [barmor.component, barmor.short_crc_component], tier=tier, seed=seed, level='proof',
+    return runner.run_property(PID, its, bounded=[] if only else [barmor.component, barmor.short_crc_component, barmor.header_isolation_component], tier=tier, seed=seed, level='proof',
                                trusted_base=['pyvc (bit-vector translation of the crc24 loop body)', 'z3 5.1', 'specs/armor.py reference CRC by polynomial division'],
                                assumptions=['the armor reader (regular expression) and base64 are outside the verifier: bounded component C10/armor-decoder',
                                             'crc24 loop: fold semantics follow from the checked shape `crc = INIT; for b in data: BODY; return crc & MASK`'])
